@@ -7,7 +7,7 @@ write, or copies a sibling attribute's entry for the loop's own index.
 """
 from ..core import Obligation, DISCHARGED, VIOLATION, load_table
 from ..facts import walk, strip_targs
-from ..taint import _tree_eq, FLIP
+from ..taint import _tree_eq, FLIP, is_src
 from ..taintcheck import engine, run_rule, check_controls
 from ..cfgutil import dominating_edges, success_returns
 from .. import sinks as S
@@ -122,6 +122,7 @@ def run(ctx, rep):
     claimonce(ctx, rep, eng, tab)
     from .C10 import skipmap
     skipmap(ctx, rep)
+    identity_size(ctx, rep, eng)
 
 
 def _deref_targets(fn, lv):
@@ -276,3 +277,83 @@ def claimonce(ctx, rep, eng, tab):
     for name in ("claim_ok", "claim_ptr_ok"):
         rep.control("CLAIMONCE", name + " (negative)", ctl.get(name) == DISCHARGED, "must be discharged")
     rep.floor("stores to write-once ownership fields in Reach(decode)", n_real, 1)
+
+
+def identity_size(ctx, rep, eng):
+    """IDENTITY-SIZE: an attribute that is given the identity point->value mapping holds one value per point.
+    Where a decoder function both sizes an attribute (`Reset(n)`) and calls `SetIdentityMapping()` on it, n is
+    the geometry's point count: if n was read from the stream in that function it must be pinned by a
+    dominating equality test against `num_points()` (a rejection on `n != ..num_points()`); otherwise the
+    decoder returns points that map to values the attribute does not have."""
+    from ..cfgutil import dominating_edges
+    F = ctx.F
+    rep.rules_text.append(
+        "IDENTITY-SIZE: in decoder-layer functions an attribute that receives SetIdentityMapping() and is sized by "
+        "Reset(n) in the same function has n == the point count: a stream value read there must be equality-tested "
+        "against num_points() before the Reset")
+    n_real, fired = 0, False
+
+    def obj_key(t):
+        t = _strip(t)
+        while isinstance(t, dict) and t.get("k") in ("un", "icast", "cast", "paren"):
+            t = _strip(t.get("e"))
+        if isinstance(t, dict) and t.get("k") == "call" and strip_targs(t.get("fn") or "").endswith(("::get", "operator->", "operator*")):
+            return obj_key(t.get("obj"))
+        if isinstance(t, dict) and t.get("k") == "var" and "d" in t:
+            return ("v", t["d"])
+        return None
+    for fn in eng.scope:
+        is_ctl = fn.name.startswith("verif_control::idsize_")
+        if not is_ctl and "/draco/compression/" not in fn.file:
+            continue
+        ft = eng.ft[fn.key]
+        ident = {}
+        resets = []
+        for n, b, rk, ev in fn.calls():
+            short = strip_targs(n.get("fn") or "").rsplit("::", 1)[-1]
+            if short == "SetIdentityMapping" and n.get("obj") is not None:
+                k = obj_key(n["obj"])
+                if k:
+                    ident[k] = n
+            elif short == "Reset" and n.get("obj") is not None and n.get("args") and \
+                    "PointAttribute" in (n.get("fn") or ""):
+                k = obj_key(n["obj"])
+                if k:
+                    resets.append((k, n, b))
+        for k, n, b in resets:
+            if k not in ident:
+                continue
+            arg = n["args"][0]
+            labs = [l for l in ft.labels(arg, b) if is_src(l)]
+            if not labs:
+                n_real += 0 if is_ctl else 1
+                rep.add(Obligation("IDENTITY-SIZE", fn.base, "Reset + identity mapping", fn.site(n.get("loc", "")),
+                                   DISCHARGED, control=is_ctl, trivial=True,
+                                   detail="the size is not read from the stream in this function (the geometry's point "
+                                          "count or a caller's value)"))
+                continue
+            pinned = False
+            for cb, oc, cond in dominating_edges(fn, b):
+                if isinstance(oc, tuple):
+                    continue
+                for l, op, r in ft.atoms(cond, oc):
+                    if op != "==":
+                        continue
+                    for side, other in ((l, r), (r, l)):
+                        if side is None or other is None:
+                            continue
+                        if set(labs) & set(ft.labels(side, cb.id)) and any(
+                                x.get("k") == "call" and strip_targs(x.get("fn") or "").endswith("::num_points")
+                                for x in walk(other)):
+                            pinned = True
+            n_real += 0 if is_ctl else 1
+            fired |= is_ctl and not pinned
+            rep.add(Obligation("IDENTITY-SIZE", fn.base, "Reset + identity mapping", fn.site(n.get("loc", "")),
+                               DISCHARGED if pinned else VIOLATION, control=is_ctl,
+                               detail="the stream's count is tested equal to num_points() before it sizes the attribute"
+                               if pinned else
+                               "the attribute gets the identity point->value mapping but is sized by a count read from "
+                               "the stream here that is never compared with the geometry's num_points(): with a "
+                               "smaller count, points map to values that do not exist"))
+    rep.floor("attributes sized and identity-mapped in one decoder function", n_real, 2)
+    rep.control("IDENTITY-SIZE", "idsize_bad", fired, "an identity-mapped attribute sized by an unchecked stream count must be reported")
